@@ -123,6 +123,32 @@ def filters_tables():
     return out
 
 
+def lchars(s):
+    """string -> Lean `List Char` literal (used by the List-Char parsers of the interval model, C13)"""
+    def one(c):
+        if c in "'\\":
+            return "'\\" + c + "'"
+        if 32 <= ord(c) < 127:
+            return "'" + c + "'"
+        return f'(Char.ofNat {ord(c)})'
+    return llist(one(c) for c in s)
+
+
+def interval_tables():
+    """C13: the string tables of timeinterval.py as character lists + the regular expressions in use"""
+    out = ['', '/-- interval notation tables as character lists (C13) -/']
+    out.append('def monthNamesC : List (List Char) := ' + llist(lchars(m) for m in tconst.MONTH_NAMES))
+    out.append('def rangeSeparatorsC : List (List Char) := '
+               + llist(lchars(s) for s in timeinterval._RANGE_SEPARATORS))
+    out.append(f'def delimiterC : List Char := {lchars(timeinterval._DELIMITER)}')
+    out.append(f'def delimiterLegacyC : List Char := {lchars(timeinterval._DELIMITER_LEGACY)}')
+    out.append('/-- source text of the regular expressions modelled by hand in EdzedModel/Interval.lean -/')
+    out.append('def intervalRegexes : List (String × String) := ' + llist(
+        f'({lstr(n)}, {lstr(getattr(timeinterval, n).pattern)})'
+        for n in ('_RE_DAY', '_RE_ISO_DM', '_RE_MONTH', '_RE_TIME', '_RE_YEAR', '_RE_YMD')))
+    return out
+
+
 def main(outfile):
     L = []
     L.append('/- GENERATED by tools/extract.py from the edzed source -- do not edit -/')
@@ -166,6 +192,7 @@ def main(outfile):
             (sblocks1.Repeat, 'repeat'), (fsms.Timer, 'timerBlk')):
         L.append(f'def {name}Handlers : List (String × List String × List String × Bool) := '
                  + handler_table(cls))
+    L.extend(interval_tables())
     L.append('')
     L.extend(filters_tables())
     L.append('')
